@@ -200,6 +200,7 @@ def run(ctx: Ctx):
     import time
     t0 = time.time()
     cm_cases: List[Tuple[str, Optional[dict]]] = []
+    iface_table: Dict[str, str] = {}
     with lean_lock():
         ctx.extract("Power", x_power.emit)
         ctx.extract("PowerProg", x_prog.emit)
@@ -213,6 +214,7 @@ def run(ctx: Ctx):
             okb, outb = lake_build(["drv_c12prog"])
             if okb:
                 res = subprocess.run([str(LEAN / ".lake" / "build" / "bin" / "drv_c12prog")], stdout=subprocess.PIPE, text=True, timeout=600)
+                iface_table.update(dict(l.split(" -> ", 1) for l in res.stdout.splitlines() if l.startswith("table ") and " -> " in l))
                 found = [l for l in res.stdout.splitlines() if " counter-model " in l]
                 tried = [l for l in res.stdout.splitlines() if " ok " in l]
                 ctx.oblige("model:translated power methods agree with the model on every small node (counter-model search)",
@@ -228,6 +230,23 @@ def run(ctx: Ctx):
         except Exception as e:
             ctx.oblige("model:translated power methods agree with the model on every small node (counter-model search)",
                        "correspondence", False, f"{type(e).__name__}: {e}")
+    # the translation of the interfaces' enable()/disable() validated on REAL interface objects in every context (no node / node in
+    # each state, link or none, up or down, every interface class a node carries, the base classes' methods called unbound)
+    try:
+        import logging
+        logging.disable(logging.CRITICAL)
+        try:
+            real = rig.iface_probe()
+        finally:
+            logging.disable(logging.NOTSET)
+        bad = {k: {"real": v, "translated": iface_table.get(k)} for k, v in real.items() if iface_table.get(k) != v}
+        ctx.count("iface-probe:contexts", len(real))
+        ctx.count("iface-probe:raised", sum(1 for v in real.values() if "RAISES" in v))
+        ctx.oblige("rig:the translated interface enable()/disable() agree with the real interface objects in every context (probe)",
+                   "correspondence", bool(real) and bool(iface_table) and not bad, json.dumps(bad)[:2000])
+    except Exception as e:
+        ctx.oblige("rig:the translated interface enable()/disable() agree with the real interface objects in every context (probe)",
+                   "correspondence", False, f"{type(e).__name__}: {e}")
     # a counter-model of a broken `C12_gen_*_sem` theorem is replayed on the REAL code at once: the shortest request sequence that
     # reaches the node and calls the method, compared with the proved model like any other case, then shrunk
     for meth, cm in cm_cases:
